@@ -27,6 +27,9 @@ type c16Case struct {
 	Closed bool   `json:"closed"` // properly closed (with a scalar leaf) or left open
 	Limit  uint32 `json:"limit"`
 	Via    string `json:"via"` // detect | json | geo | ndjson
+	// Primer: the case that ran immediately before this one in the same process (one level);
+	// a replay runs it first, so two-step histories through pooled parser state reproduce.
+	Primer *c16Case `json:"primer,omitempty"`
 }
 
 func c16Build(c c16Case) []byte {
@@ -48,24 +51,38 @@ func c16Build(c c16Case) []byte {
 
 var c16MaxStackGrowth int64
 
+func c16Run(c c16Case, x []byte) bool {
+	switch c.Via {
+	case "detect":
+		m := vfDetectAt(x, c.Limit)
+		return c08IsJSONFamily(m) || vfInFamily(m, "application/x-ndjson")
+	case "json":
+		return magic.JSON(x, c.Limit)
+	case "geo":
+		return magic.GeoJSON(x, c.Limit) || magic.HAR(x, c.Limit) || magic.GLTF(x, c.Limit)
+	case "ndjson":
+		return magic.NdJSON(append(append([]byte("[1]\n"), x...), "\n[2]\n"...), c.Limit)
+	}
+	return false
+}
+
 func c16Check(c c16Case) vfResult {
 	var r vfResult
 	vfJournal("C16", "bombs", c)
 	x := c16Build(c)
+	if c.Primer != nil && vfReplayMode() {
+		// no garbage collection between primer and bomb: a GC would empty the parser pool and
+		// with it the state the primer left behind
+		p := *c.Primer
+		p.Primer = nil
+		px := c16Build(p)
+		old := debug.SetGCPercent(-1)
+		defer debug.SetGCPercent(old)
+		c16Run(p, px)
+	}
 	var ms0, ms1 runtime.MemStats
 	runtime.ReadMemStats(&ms0)
-	isJSON := false
-	switch c.Via {
-	case "detect":
-		m := vfDetectAt(x, c.Limit)
-		isJSON = c08IsJSONFamily(m) || vfInFamily(m, "application/x-ndjson")
-	case "json":
-		isJSON = magic.JSON(x, c.Limit)
-	case "geo":
-		isJSON = magic.GeoJSON(x, c.Limit) || magic.HAR(x, c.Limit) || magic.GLTF(x, c.Limit)
-	case "ndjson":
-		isJSON = magic.NdJSON(append(append([]byte("[1]\n"), x...), "\n[2]\n"...), c.Limit)
-	}
+	isJSON := c16Run(c, x)
 	runtime.ReadMemStats(&ms1)
 	r.Labels = append(r.Labels, fmt.Sprintf("via-%s", c.Via), fmt.Sprintf("json=%v", isJSON))
 	if c.Depth >= 1000000 && isJSON {
@@ -80,7 +97,9 @@ func c16Check(c c16Case) vfResult {
 			c16MaxStackGrowth = d
 		}
 	}
-	r.Hash = vfHash([]byte(fmt.Sprint(c)))
+	hc := c
+	hc.Primer = nil
+	r.Hash = vfHash([]byte(fmt.Sprint(hc)))
 	return r
 }
 
@@ -99,6 +118,9 @@ func TestVerif_C16(t *testing.T) {
 	sh, nsh := vfShard(), vfNShards()
 	idx := 0
 	boundary := map[string]int{}
+	// a primer that leaves the pooled parser more than 128 levels deep when it stops
+	prev := &c16Case{Shape: 0, Depth: 200, Closed: false, Limit: 0, Via: "json"}
+	c16Run(*prev, c16Build(*prev))
 	for _, d := range depths {
 		for shape := 0; shape < 3; shape++ {
 			for _, closed := range []bool{true, false} {
@@ -115,8 +137,11 @@ func TestVerif_C16(t *testing.T) {
 							if idx%nsh != sh {
 								continue
 							}
-							c := c16Case{Shape: shape, Depth: d, Pad: pad, Closed: closed, Limit: lim, Via: via}
+							c := c16Case{Shape: shape, Depth: d, Pad: pad, Closed: closed, Limit: lim, Via: via, Primer: prev}
 							r := c16Check(c)
+							pc := c
+							pc.Primer = nil
+							prev = &pc
 							vfStats.record(r, func() any { return c })
 							if r.Err != nil {
 								vfEnumFail(t, "C16", "bombs", c, r.Err)
